@@ -267,30 +267,45 @@ func typesPointer(t types.Type) types.Type { return types.NewPointer(t) }
 // does not count) and no feasible edge goes round the site within an iteration,
 // unless the state on that edge entails one of the literals in allowed.
 func everyElement(a *Analysis, s *Site, allowed func(st *CNF) bool) (bool, string) {
-	blk := s.Instr.Block()
-	hdr := innermostLoop(blk)
-	if hdr == nil {
-		return false, "the operation is not in a loop"
-	}
-	for _, e := range loopExits(hdr) {
-		if e.from == hdr {
+	// the loop may sit in a caller's frame (the operation extracted into a helper): walk up
+	// to the first frame that holds the site in a loop; in the frames below it nothing may
+	// go round the site at all
+	for k := s.Ctx; k != nil; k = k.parent {
+		blk := frameBlock(s, k)
+		if blk == nil {
+			break
+		}
+		hdr := innermostLoop(blk)
+		if hdr == nil {
+			for _, sk := range a.skipEdges(k, blk, nil) {
+				if allowed != nil && allowed(sk.St) {
+					continue
+				}
+				return false, "a path of the helper goes round the operation (at " + blockPos(a.w, sk.From) + ")"
+			}
 			continue
 		}
-		if _, isPanic := e.to.Instrs[len(e.to.Instrs)-1].(*ssa.Panic); isPanic {
-			continue
+		for _, e := range loopExits(hdr) {
+			if e.from == hdr {
+				continue
+			}
+			if _, isPanic := e.to.Instrs[len(e.to.Instrs)-1].(*ssa.Panic); isPanic {
+				continue
+			}
+			if a.edgeState(k, e.from, e.to) == nil {
+				continue // infeasible
+			}
+			return false, "the loop can be left before every element was visited (at " + blockPos(a.w, e.from) + ")"
 		}
-		if a.edgeState(s.Ctx, e.from, e.to) == nil {
-			continue // infeasible
+		for _, sk := range a.skipEdges(k, blk, func(b *ssa.BasicBlock) bool { return b == hdr }) {
+			if allowed != nil && allowed(sk.St) {
+				continue
+			}
+			return false, "an iteration can go round the operation (at " + blockPos(a.w, sk.From) + ")"
 		}
-		return false, "the loop can be left before every element was visited (at " + blockPos(a.w, e.from) + ")"
+		return true, ""
 	}
-	for _, sk := range a.skipEdges(s.Ctx, blk, func(b *ssa.BasicBlock) bool { return b == hdr }) {
-		if allowed != nil && allowed(sk.St) {
-			continue
-		}
-		return false, "an iteration can go round the operation (at " + blockPos(a.w, sk.From) + ")"
-	}
-	return true, ""
+	return false, "the operation is not in a loop"
 }
 
 // blockPos: a source position for the end of block b (the last instruction that has one).
@@ -312,15 +327,99 @@ func blockPos(w *World, b *ssa.BasicBlock) string {
 // outermost enclosing loop, when it sits in one), unless the state on the edge
 // that goes round it satisfies allowed.
 func alwaysReached(a *Analysis, s *Site, allowed func(st *CNF) bool) (bool, string) {
-	target := s.Instr.Block()
-	if ls := enclosingLoops(target); len(ls) > 0 {
-		target = ls[len(ls)-1]
-	}
-	for _, sk := range a.skipEdges(s.Ctx, target, nil) {
-		if allowed != nil && allowed(sk.St) {
-			continue
+	for k := s.Ctx; k != nil; k = k.parent {
+		target := frameBlock(s, k)
+		if target == nil {
+			break
 		}
-		return false, "a normal path goes round it at " + blockPos(a.w, sk.From)
+		if ls := enclosingLoops(target); len(ls) > 0 {
+			target = ls[len(ls)-1]
+		}
+		for _, sk := range a.skipEdges(k, target, nil) {
+			if allowed != nil && allowed(sk.St) {
+				continue
+			}
+			return false, "a normal path goes round it at " + blockPos(a.w, sk.From)
+		}
 	}
 	return true, ""
+}
+
+// resultSite: the inlined call site of function fn whose result is the term t
+// (nil when t is not such a result). A helper with several returns yields a
+// ret term named after it; a helper with a single return yields the returned
+// term itself (a phi of a flag, …) — both spellings of the helper are the same
+// to the rules.
+func (a *Analysis) resultSite(t *Term, fn string) *Site {
+	if t == nil || fn == "" || fn == "?" {
+		return nil
+	}
+	if t.Op == "ret" && t.Name == fn {
+		if t.Inst > 0 && t.Inst < len(a.tb.insts) && a.tb.insts[t.Inst] != nil {
+			in := a.tb.insts[t.Inst]
+			return a.siteIdx[siteKey{in.ctx, in.ins}]
+		}
+		return nil
+	}
+	if t.Op == "const" {
+		return nil
+	}
+	for _, s := range a.sites {
+		if !s.Inlined || s.Callee != fn || s.Val == nil {
+			continue
+		}
+		if s.Val == t {
+			return s
+		}
+		if c, ok := s.Instr.(*ssa.Call); ok && s.Fn != nil && s.Fn.Signature.Results().Len() > 1 {
+			for i := 0; i < s.Fn.Signature.Results().Len(); i++ {
+				if a.tb.call(s.Ctx, c, i) == t {
+					return s
+				}
+			}
+		}
+	}
+	return nil
+}
+
+// loopEmptyAt: the state st entails that the loop with header hdr (in frame ctx)
+// would run zero iterations: its continuation condition, with every loop
+// variable replaced by its initial value, is false.
+func loopEmptyAt(a *Analysis, ctx *Ctx, hdr *ssa.BasicBlock, st *CNF) bool {
+	ifi, ok := hdr.Instrs[len(hdr.Instrs)-1].(*ssa.If)
+	if !ok || st == nil {
+		return false
+	}
+	inLoop := loopBlocks(hdr)
+	ct := a.tb.Term(ctx, ifi.Cond)
+	for _, ins := range hdr.Instrs {
+		phi, isPhi := ins.(*ssa.Phi)
+		if !isPhi {
+			break
+		}
+		var init *Term
+		n := 0
+		for i, p := range hdr.Preds {
+			if !inLoop[p] {
+				init = a.tb.Term(ctx, phi.Edges[i])
+				n++
+			}
+		}
+		if n != 1 {
+			return false
+		}
+		ct = a.tb.Subst(ct, a.tb.Term(ctx, phi), init)
+	}
+	// the body is entered on the true side unless the true successor leaves the loop
+	bodyOnTrue := inLoop[hdr.Succs[0]]
+	lits := a.condLits(ct, !bodyOnTrue, 0)
+	if len(lits) == 0 {
+		return false
+	}
+	for _, l := range lits {
+		if !a.holdsAt(st, l) {
+			return false
+		}
+	}
+	return true
 }
